@@ -423,6 +423,11 @@ func caseRead(r *mon.Rec, idx int, gray bool) {
 			dp = port(rng)
 		}
 		f := refframe.Default(src, dst, port(rng), dp, payloadOf(rng, []int{0, 1, 7, 240, 300, 301, 548, 1400, 1497, 1498}[rng.IntN(10)]+rng.IntN(3), 4)) // up to 1500 octets: with a 60-octet IP header the largest frame a 1500-octet read has to take
+		if rng.IntN(2) == 0 {                                                                                                                             // header octets a reader has no business with, as any sender may set them
+			f.TOS = []byte{0, 20, 0x10, 0xb8, 0xff, byte(rng.UintN(256))}[rng.IntN(6)]
+			f.ID = uint16(rng.UintN(65536))
+			f.TTL = []byte{1, 64, 255, 128, 2}[rng.IntN(5)]
+		}
 		k := rng.IntN(14)
 		if gray {
 			k = 14 + rng.IntN(5)
@@ -448,8 +453,11 @@ func caseRead(r *mon.Rec, idx int, gray bool) {
 		}
 		switch k {
 		case 0, 1, 2: // plain valid
-		case 3: // IP options
+		case 3: // IP options: NOPs, or options of the kinds that exist with lengths that fit and lengths that do not
 			f.IHL = 6 + rng.IntN(10)
+			if rng.IntN(2) == 0 {
+				f.Options = refframe.IPOptions(rng.IntN, f.IHL*4-20)
+			}
 		case 4: // trailing link padding
 			f.Pad = 1 + rng.IntN(40)
 		case 5: // total length shorter than the frame: payload bounded by total length
